@@ -137,7 +137,12 @@ class TrueSingleton(type):
 
     _TrueSingleton__singleton_instances: dict[Hashable, object] = {}
 
-    def __call__(cls, *args, **kwargs):
+    # the class is taken from *args rather than named as a parameter, so that no
+    # keyword argument of the class being constructed (not even one that
+    # happens to be called ``cls``) can collide with it
+    # pylint: disable-next=no-method-argument
+    def __call__(*args, **kwargs):
+        cls, args = args[0], args[1:]
         if cls not in cls._TrueSingleton__singleton_instances:
             cls._TrueSingleton__singleton_instances[cls] = super(
                 TrueSingleton, cls
@@ -341,7 +346,10 @@ def semi_singleton_metaclass(hashfunc: Callable | None = None) -> type:
         _SemiSingleton__semisingleton_instance_map = {}
         _SemiSingleton__semisingleton_hashfunc = hashfunc
 
-        def __call__(cls, *args, **kwargs):
+        # see TrueSingleton.__call__ on why the class is not a named parameter
+        # pylint: disable-next=no-method-argument
+        def __call__(*args, **kwargs):
+            cls, args = args[0], args[1:]
             # the map is shared by every class using this metaclass (and their
             # subclasses), so the class is part of the key
             key = (cls, hashfunc(args, kwargs))
